@@ -50,14 +50,16 @@ def oldKeywords (F : Flags) : List (Nat × Expr) → List Field → Flags × Lis
       -- no such (repr) field any more
       ((Flags.single .fix).union r.1, (if F.fix then none else some (name, e)) :: r.2)
 
-/-- `to_insert` / `insert_pos`: new non-default fields without keyword, grouped under the number of matched
-    keywords seen before them (in field order); the rest goes to the end (`insert_pos` after the loop) -/
+/-- `to_insert` / `old_kwarg_pos`: new non-default fields without keyword are inserted in front of the next matched
+    keyword (in field order), at that keyword's index in the old argument list (`off` = number of positional
+    arguments in front); the rest goes to the end.  (Since fix e4b1c97; before, the position was the number of
+    matched keywords seen so far, which made the result depend on the order in which categories were approved.) -/
 def inserts (oldNames : List Nat) : List Field → Nat → List (Nat × Val) → List (Nat × List (Nat × Val))
-  | [], pos, pending => [(pos, pending)]
-  | (name, v, d) :: rest, pos, pending =>
-    if d then inserts oldNames rest pos pending
-    else if oldNames.contains name then (pos, pending) :: inserts oldNames rest (pos + 1) []
-    else inserts oldNames rest pos (pending ++ [(name, v)])
+  | [], off, pending => [(off + oldNames.length, pending)]
+  | (name, v, d) :: rest, off, pending =>
+    if d then inserts oldNames rest off pending
+    else if oldNames.contains name then (off + oldNames.idxOf name, pending) :: inserts oldNames rest off []
+    else inserts oldNames rest off (pending ++ [(name, v)])
 
 def insAt (ins : List (Nat × List (Nat × Val))) (i : Nat) : List (Nat × Expr) :=
   (ins.filter (fun p => p.1 == i)).flatMap (fun p => p.2.map (fun kv => (kv.1, canon kv.2)))
@@ -83,10 +85,9 @@ def assignCall (F : Flags) (kw : List (Nat × Expr)) (fields : List Field) : Cal
 
   For the adapters whose `arguments()` returns keyword arguments only (dataclass, attrs, pydantic, namedtuple)
   every positional argument of a hand-written call `A(1, 2)` is deleted (category fix, whatever its value) and
-  its field is inserted again as a keyword argument (fix) — unless it now holds its default.  The insert
-  positions count the matched keywords only but index the list `args + keywords` (`apply_all`), so with `k`
-  positional arguments in front an inserted keyword lands `k` slots earlier than its field order says; the
-  keyword *set* is the same.  Without `fix` nothing changes. -/
+  its field is inserted again as a keyword argument (fix) — unless it now holds its default.  Insert positions
+  index the list `args + keywords` (`apply_all`): the index of the next matched keyword, shifted by the number of
+  positional arguments.  Without `fix` nothing changes. -/
 
 structure CallOutP where
   cats : Flags
@@ -97,7 +98,7 @@ structure CallOutP where
 def assignCallPos (F : Flags) (pos : List Expr) (kw : List (Nat × Expr)) (fields : List Field) : CallOutP :=
   let r := assignCall F kw fields
   let o := oldKeywords F kw fields
-  let ins := inserts (kw.map (·.1)) fields 0 []
+  let ins := inserts (kw.map (·.1)) fields pos.length []
   { cats := r.cats.union (if pos.isEmpty then Flags.empty else Flags.single .fix),
     pos := if F.fix then [] else pos,
     kw := if F.fix then weave (pos.map (fun _ => none) ++ o.2) ins 0 else r.kw,
